@@ -512,7 +512,7 @@ def _crun(out):
         ["(%s, %s)" % (cz(i), _coq(v)) for i, v in zip(out["index"], out["vals"])]))
 
 
-def _cprog(case):
+def _cprog(case, with_fh_modes=True):
     vals = _data(case)
     n = case["n"]
     leaf = case["fc"]["t"] in ("naive", "poly")
@@ -527,8 +527,12 @@ def _cprog(case):
         fh = "(Abs %s)" % czlist([case["t0"] + total - 1 + r for r in case["fh"]])
     else:
         fh = "(Rel %s)" % czlist(case["fh"])
-    return "%s {| t0 := %s; ys := %s |} %s %s %s" % (
-        _cleaf(case["fc"]), cz(case["t0"]), train, clist(ups), cbool(case["update_params"]), fh)
+    hf = "(Some %s)" % fh if case["fh_at"] in ("fit", "both") else "None"
+    hp = "(Some %s)" % fh if case["fh_at"] in ("predict", "both") else "None"
+    if not with_fh_modes:
+        hf, hp = fh, ""
+    return "%s {| t0 := %s; ys := %s |} %s %s %s %s" % (
+        _cleaf(case["fc"]), cz(case["t0"]), train, clist(ups), cbool(case["update_params"]), hf, hp)
 
 
 def coq_case(case, out):
@@ -536,7 +540,7 @@ def coq_case(case, out):
 
 
 def coq_model_term(case):
-    return "model_run %s" % _cprog(case)
+    return "model_run %s" % _cprog(case, with_fh_modes=False)
 
 
 def distribution(cases, results):
